@@ -1,13 +1,18 @@
 #!/bin/bash
 # for every seeded change: apply to a scratch copy of /repo/kingdon (KVC_REPO; /repo untouched, evidence redirected), run the
-# checks named in its meta.json (quick tier); prints the detection matrix
+# checks named in its meta.json (quick tier); prints the detection matrix.  usage: seed_matrix.sh [parallel seeds, default 4]
 cd /verif
-SCR=/var/tmp/kvcscratch/matrix${VERIF_SEED:-}; rm -rf $SCR; mkdir -p $SCR/out
-for d in seeded/*/; do n=$(basename $d); props=$(python3 -c "import json;print(' '.join(json.load(open('$d/meta.json'))['checks_to_run']))")
-  rm -rf $SCR/repo; mkdir -p $SCR/repo; cp -r /repo/kingdon $SCR/repo/kingdon
-  (cd $SCR/repo && patch -s -p1 < /verif/$d/patch.diff) || { echo "$n: patch does not apply"; continue; }
+export SCRB=/var/tmp/kvcscratch/matrix${VERIF_SEED:-}; rm -rf $SCRB; mkdir -p $SCRB
+one() {
+  n=$1; d=seeded/$n; [ -f $d/meta.json ] || { echo "$n: no meta.json"; return; }
+  props=$(python3 -c "import json;print(' '.join(json.load(open('$d/meta.json'))['checks_to_run']))")
+  SCR=$SCRB/$n; mkdir -p $SCR/repo $SCR/out; cp -r /repo/kingdon $SCR/repo/kingdon
+  (cd $SCR/repo && patch -s -p1 < /verif/$d/patch.diff) || { echo "$n: patch does not apply"; rm -rf $SCR; return; }
   line="$n:"
   for p in $props; do KVC_REPO=$SCR/repo KVC_OUT=$SCR/out ./check $p --tier quick > $SCR/out/$n.$p.log 2>&1; rc=$?; t=$(tail -1 $SCR/out/$n.$p.log); line="$line $p(exit=$rc,$(echo $t | grep -o 'refuted=[0-9]*'),$(echo $t | grep -o 'standin_failures=[0-9]*'),$(echo $t | grep -o 'out_of_subset=[0-9]*'),nofail=$(grep -c no-failing-input-found $SCR/out/$n.$p.log))"; done
   echo "$line"
-done
-rm -rf $SCR
+  rm -rf $SCR
+}
+export -f one
+ls seeded | xargs -P ${1:-4} -I{} bash -c 'one {}'
+rm -rf $SCRB
